@@ -1,0 +1,17 @@
+//go:build verif
+
+package address
+
+// Contracts for the verif build tag (comment-only; see /verif/DESIGN.md).
+
+//@ prop C18
+
+//@ func StringToUint160
+//@ ensures[len] err == nil ==> len(base58.b58dec(s)) == 25
+//@ ensures[prefix] err == nil ==> base58.b58dec(s)[0] == Prefix
+//@ ensures[val] err == nil ==> forall(i, 0, 20, u[i] == base58.b58dec(s)[1+i])
+//@ seed-import nb58 github.com/nspcc-dev/neo-go/pkg/encoding/base58
+//@ seed s nb58.CheckEncode([]byte{0x35})
+//@ seed s nb58.CheckEncode([]byte{0x35, 1, 2, 3, 4, 5, 6, 7, 8, 9, 10, 11, 12, 13, 14, 15, 16, 17})
+//@ seed s nb58.CheckEncode([]byte{0x35, 1, 2, 3, 4, 5, 6, 7, 8, 9, 10, 11, 12, 13, 14, 15, 16, 17, 18, 19, 20, 21, 22})
+//@ seed s nb58.CheckEncode([]byte{0x35, 1, 2, 3, 4, 5, 6, 7, 8, 9, 10, 11, 12, 13, 14, 15, 16, 17, 18, 19, 20})
